@@ -422,9 +422,9 @@ func (h *dbHarness) root() {
 		}
 		h.harvestFaultStats(h.disk)
 		h.disk = h.disk.CrashImage(spec)
-		if !h.faultProfile() && len(h.plan.Faults) > 0 {
+		if !h.faultProfile() && len(h.allFaults()) > 0 {
 			// the devices keep misbehaving across the restart (spent rules stay spent)
-			h.disk.SetFaults(h.plan.Faults)
+			h.disk.SetFaults(h.allFaults())
 		}
 		h.faultsArmed = false
 		h.db = nil
@@ -583,6 +583,8 @@ func (h *dbHarness) exec(op *DBOp) {
 		h.stopFaults()
 	case "armfault":
 		h.execArmFault(op)
+	case "armstall":
+		h.execArmStall(op)
 	case "aflush":
 		// an asynchronous flush: the following operations overlap it
 		if _, err := h.db.AsyncFlush(); err != nil {
@@ -741,6 +743,36 @@ func writeOpts(sync bool) *pebble.WriteOptions {
 	return pebble.NoSync
 }
 
+// applyToBatchDeferred is applyToBatch through the *Deferred API (the caller
+// fills key and value in place and calls Finish), where one exists.
+func applyToBatchDeferred(b *pebble.Batch, m kvmodel.Op) error {
+	var d *pebble.DeferredBatchOp
+	switch m.K {
+	case "set":
+		d = b.SetDeferred(len(m.Key), len(m.Val))
+		copy(d.Value, m.Val)
+	case "merge":
+		d = b.MergeDeferred(len(m.Key), len(m.Val))
+		copy(d.Value, m.Val)
+	case "del":
+		d = b.DeleteDeferred(len(m.Key))
+	case "delsized":
+		d = b.DeleteSizedDeferred(len(m.Key), uint32(len(m.Key)+8))
+	case "singledel":
+		d = b.SingleDeleteDeferred(len(m.Key))
+	case "delrange":
+		d = b.DeleteRangeDeferred(len(m.Key), len(m.End))
+		copy(d.Value, m.End)
+	case "rkdel":
+		d = b.RangeKeyDeleteDeferred(len(m.Key), len(m.End))
+		copy(d.Value, m.End)
+	default:
+		return applyToBatch(b, m)
+	}
+	copy(d.Key, m.Key)
+	return d.Finish()
+}
+
 func applyToBatch(b *pebble.Batch, m kvmodel.Op) error {
 	switch m.K {
 	case "set":
@@ -810,8 +842,12 @@ func (h *dbHarness) execBatch(op *DBOp) {
 		}
 	} else {
 		b := h.db.NewBatch()
-		for _, m := range gi.g.Ops {
-			if e := applyToBatch(b, m); e != nil {
+		for i, m := range gi.g.Ops {
+			apply := applyToBatch
+			if (gi.g.ID+i)%3 == 0 {
+				apply = applyToBatchDeferred
+			}
+			if e := apply(b, m); e != nil {
 				simrt.Fail("tooling:batch", e.Error())
 			}
 		}
@@ -1074,10 +1110,60 @@ func scanPoints(it *pebble.Iterator) ([]kvmodel.KV, error) {
 	return out, it.Error()
 }
 
+// scanPointsTolerant is scanPoints for runs with injected faults: a failed
+// value fetch does not end the scan. The fetch is retried once and the scan
+// goes on; whatever a retry or a later key returns without an error is an
+// ordinary result and is compared like any other. It returns the pairs read,
+// the number of values that stayed unreadable (their V is left empty and
+// unreadable[i] set) and the iterator's own error.
+func scanPointsTolerant(it *pebble.Iterator) (out []kvmodel.KV, unreadable map[int]bool, firstValueErr error, err error) {
+	unreadable = map[int]bool{}
+	for ok := it.First(); ok; ok = it.Next() {
+		v, verr := it.ValueAndErr()
+		if verr != nil {
+			if firstValueErr == nil {
+				firstValueErr = verr
+			}
+			v, verr = it.ValueAndErr()
+			if verr != nil {
+				unreadable[len(out)] = true
+				out = append(out, kvmodel.KV{K: string(it.Key())})
+				continue
+			}
+		}
+		out = append(out, kvmodel.KV{K: string(it.Key()), V: string(v)})
+	}
+	return out, unreadable, firstValueErr, it.Error()
+}
+
 func (h *dbHarness) checkScan(pos int) {
 	it, err := h.db.NewIter(nil)
 	if err != nil {
 		h.opErr("newiter", err)
+		return
+	}
+	if h.faultProfile() {
+		got, unreadable, verr, err := scanPointsTolerant(it)
+		if cerr := it.Close(); err == nil {
+			err = cerr
+		}
+		if verr != nil {
+			h.opErr("iterator-value", verr)
+		}
+		if err != nil {
+			h.opErr("scan", err)
+			return
+		}
+		want := h.model.StateAt(pos).Points()
+		for i := range got {
+			if unreadable[i] && i < len(want) && want[i].K == got[i].K {
+				got[i].V = want[i].V
+			}
+		}
+		if d := kvmodel.DiffPoints(want, got); d != "" {
+			Violation("scan", "full scan with a new iterator (continued past %d unreadable values) differs from the model after %d groups: %s", len(unreadable), pos, d)
+		}
+		h.count("check.scan", 1)
 		return
 	}
 	got, err := scanPoints(it)
